@@ -16,6 +16,7 @@ import (
 	"errors"
 	"fmt"
 	"os"
+	"sort"
 	"strings"
 	"sync"
 	"time"
@@ -56,6 +57,8 @@ type opSpec struct {
 	// what the fault-free run on the main world handed to storage.AddAll (captured from the AddResult)
 	added []string
 	heads []string
+	// AddAllNoError: an insert answered with "document exists" is part of the fault-free trace
+	allowDupErr bool
 }
 
 func safeRun(f func(w *World) error, w *World) (err error) {
@@ -110,8 +113,30 @@ func runWorkload(r *corr.Run, wl int) {
 	rn.modelOps = []string{"reset"}
 	nOps := 8 + r.Intn(6)
 	rn.exec(rn.g.createSpace())
+	// directed operations, early so that a loaded machine still reaches them: the first workload of
+	// every run carries one remote batch of more than 512 changes and an AddAllNoError with a duplicate,
+	// the second a batch of ~50 and a derived child tree; thorough runs keep drawing from the size ladder
+	var forced []func() *opSpec
+	switch {
+	case wl == 0:
+		n := []int{513, 600}[r.Intn(2)]
+		forced = []func() *opSpec{func() *opSpec { return rn.g.remoteSized(n) }, rn.g.noErrorAdd}
+	case wl == 1:
+		n := 40 + r.Intn(30)
+		forced = []func() *opSpec{func() *opSpec { return rn.g.remoteSized(n) }, rn.g.treeCreateChild}
+	case !r.Quick() && wl%5 == 0:
+		n := []int{513, 600, 1100, 1537, 511, 512, 1024, 1025}[r.Intn(8)]
+		forced = []func() *opSpec{func() *opSpec { return rn.g.remoteSized(n) }}
+	}
+	at := 1 + r.Intn(2)
 	for i := 1; i < nOps && !rn.dead && r.TimeLeft(); i++ {
-		op := rn.g.next()
+		var op *opSpec
+		if i >= at && len(forced) > 0 {
+			op = forced[0]()
+			forced = forced[1:]
+		} else {
+			op = rn.g.next()
+		}
 		if op == nil {
 			continue
 		}
@@ -130,14 +155,18 @@ func (rn *runner) violate(sig, stream, desc string) {
 
 // attempt runs the operation once on w with every boundary imaged (if img) and call `inject`
 // failing (if ≥ 0). It returns the recorded trace, the image directories and the operation's error.
-func (rn *runner) attempt(w *World, f func(w *World) error, img bool, inject int) (evs []Event, imgs []string, err error) {
+func (rn *runner) attempt(w *World, f func(w *World) error, img bool, inject int) (evs []Event, imgs []image, err error) {
+	nIns := 0
 	w.db.rec.start(func(k int, ev Event) error {
-		if img {
+		if img && rn.wantImage(k, ev, nIns) {
 			d := rn.fx.newDir("img")
 			if e := copyImage(w.dir, d); e != nil {
 				rn.fatal("copy image: " + e.Error())
 			}
-			imgs = append(imgs, d)
+			imgs = append(imgs, image{k, d})
+		}
+		if ev.Kind == evInsert {
+			nIns++
 		}
 		if k == inject && ev.Kind != evRollback && ev.Kind != evSRollback {
 			return errInjected
@@ -160,8 +189,77 @@ func (rn *runner) attempt(w *World, f func(w *World) error, img bool, inject int
 		if e := copyImage(w.dir, d); e != nil {
 			rn.fatal("copy image: " + e.Error())
 		}
-		imgs = append(imgs, d)
+		imgs = append(imgs, image{len(evs), d})
 	}
+	return
+}
+
+// image is the copy of the database files taken just before storage call k (k = len(trace): after the
+// last call).
+type image struct {
+	k   int
+	dir string
+}
+
+// wantImage is the size-aware sampling of crash boundaries. Every boundary that is not an insert is
+// imaged (begin, savepoints, DDL, upserts, deletes, commit — and any transaction control that shows
+// up in the middle of a trace); of the inserts the first 24, those around every multiple of 512
+// inserts (batch sizes at which a chunked write would split), and a random 1 in 48 of the rest. The
+// boundary just after the last insert is the one before the heads upsert, hence always imaged.
+func (rn *runner) wantImage(k int, ev Event, nIns int) bool {
+	if ev.Kind != evInsert || nIns < 24 {
+		return true
+	}
+	if m := nIns % 512; m >= 508 || m <= 4 {
+		return true
+	}
+	return rn.r.Intn(48) == 0
+}
+
+// sampleFaults picks the calls that are failed: all of them for ordinary traces; for long ones every
+// non-insert call, the first and last inserts, the inserts around every multiple of 512, and a few
+// random ones.
+func (rn *runner) sampleFaults(evs []Event) (ks []int) {
+	var all []int
+	for k := range evs {
+		if evs[k].Kind != evRollback && evs[k].Kind != evSRollback {
+			all = append(all, k)
+		}
+	}
+	if len(all) <= 40 {
+		return all
+	}
+	nInsTotal := 0
+	for _, e := range evs {
+		if e.Kind == evInsert {
+			nInsTotal++
+		}
+	}
+	nIns := 0
+	var rest []int
+	for _, k := range all {
+		if evs[k].Kind != evInsert {
+			ks = append(ks, k)
+			continue
+		}
+		m := nIns % 512
+		switch {
+		case nIns < 1 || nIns >= nInsTotal-1, nIns >= 510 && (m >= 511 || m <= 1):
+			ks = append(ks, k)
+		default:
+			rest = append(rest, k)
+		}
+		nIns++
+	}
+	extra := rn.r.Pick(2, 12)
+	for _, i := range rn.r.Perm(len(rest)) {
+		if extra == 0 {
+			break
+		}
+		ks = append(ks, rest[i])
+		extra--
+	}
+	sort.Ints(ks)
 	return
 }
 
@@ -251,8 +349,8 @@ func (rn *runner) exec(op *opSpec) {
 	evs, imgs, err := rn.attempt(main, op.run, true, inject)
 	tRun()
 	defer func() {
-		for _, d := range imgs {
-			os.RemoveAll(d)
+		for _, im := range imgs {
+			os.RemoveAll(im.dir)
 		}
 	}()
 	if k := injectedAt(evs); k >= 0 {
@@ -273,8 +371,8 @@ func (rn *runner) exec(op *opSpec) {
 				return
 			}
 		}
-		for _, d := range imgs {
-			os.RemoveAll(d)
+		for _, im := range imgs {
+			os.RemoveAll(im.dir)
 		}
 		evs, imgs, err = rn.attempt(main, op.run, true, -1)
 	}
@@ -294,6 +392,7 @@ func (rn *runner) exec(op *opSpec) {
 	trace := renderTrace(evs, fx.in.get, fx.collName)
 	r.Case(op.kind+" "+trace, len(evs) > 0)
 	r.CountN("boundaries", len(evs)+1)
+	r.CountN("boundaries.imaged", len(imgs))
 	r.Count(fmt.Sprintf("trace.len.%02d", min(len(evs), 30)))
 
 	// live objects agree with storage after success
@@ -305,25 +404,25 @@ func (rn *runner) exec(op *opSpec) {
 	// --- (3) crash images
 	tImg := rn.timed("images")
 	seen := map[string][2]string{}
-	var states [][2]string // label ("pre" | "post") and model-style digest per image
-	for k, dir := range imgs {
-		h := imageHash(dir)
+	var states []imgState // boundary, label ("pre" | "post") and model-style digest per image
+	for _, im := range imgs {
+		h := imageHash(im.dir)
 		st, ok := seen[h]
 		if ok {
 			r.Count("image.deduped")
 		} else {
-			st = rn.checkImage(op, k, len(evs), dir, pre, post)
+			st = rn.checkImage(op, im.k, len(evs), im.dir, pre, post)
 			if rn.dead {
 				return
 			}
 			seen[h] = st
 		}
-		states = append(states, st)
+		states = append(states, imgState{im.k, st[0], st[1]})
 	}
 
 	tImg()
 	// structure, stated directly on the recorded calls
-	if msg := singleTx(evs); msg != "" {
+	if msg := singleTx(evs, op.allowDupErr); msg != "" {
 		rn.violate("", "single-tx", fmt.Sprintf("%s: %s; trace: %s", op.kind, msg, trace))
 		return
 	}
@@ -338,12 +437,8 @@ func (rn *runner) exec(op *opSpec) {
 
 	// --- (5) every call k faulted on a fork of the pre-state, then the same input again
 	defer rn.timed("faults")()
-	var ks []int
-	for k := range evs {
-		if evs[k].Kind != evRollback && evs[k].Kind != evSRollback {
-			ks = append(ks, k)
-		}
-	}
+	ks := rn.sampleFaults(evs)
+	r.CountN("fault.calls.sampled", len(ks))
 	if len(ks) == 0 {
 		rn.applyModel(post)
 		if op.after != nil {
@@ -356,7 +451,11 @@ func (rn *runner) exec(op *opSpec) {
 	// them in the thorough tier)
 	jobs := [][]int{ks}
 	if r.Quick() {
-		for _, i := range r.Perm(len(ks))[:min(2, len(ks))] {
+		nSingle := 2
+		if len(evs) > 40 {
+			nSingle = 1
+		}
+		for _, i := range r.Perm(len(ks))[:min(nSingle, len(ks))] {
 			jobs = append(jobs, []int{ks[i]})
 		}
 	} else {
@@ -373,7 +472,7 @@ func (rn *runner) exec(op *opSpec) {
 			wg.Add(1)
 			go func(i int) {
 				defer wg.Done()
-				results[i] = rn.faultOnFork(op, jobs[i], evs, imgs[0], pre, post, postSem)
+				results[i] = rn.faultOnFork(op, jobs[i], evs, imgs[0].dir, pre, post, postSem)
 			}(i)
 		}
 		wg.Wait()
